@@ -1,10 +1,12 @@
 package main
 
 import (
+	"bytes"
 	"flag"
 	"fmt"
 	"os"
 	"path/filepath"
+	"strconv"
 
 	"github.com/200sc/bebop"
 )
@@ -66,11 +68,6 @@ func run() error {
 	for _, w := range warnings {
 		fmt.Fprintf(os.Stderr, "warning: %v\n", w)
 	}
-	out, err := os.Create(*outputFile)
-	if err != nil {
-		return fmt.Errorf("failed to open output file: %w", err)
-	}
-	defer out.Close()
 	importMode := bebop.ImportGenerationModeSeparate
 	if *combinedImports {
 		importMode = bebop.ImportGenerationModeCombined
@@ -84,8 +81,36 @@ func run() error {
 		PrivateDefinitions:        *privateDefinitions,
 		AlwaysUsePointerReceivers: *pointerReceivers,
 	}
+	// generate into memory first: the output file is only touched once there is
+	// a complete result to put there
+	out := new(bytes.Buffer)
 	if err := bopf.Generate(out, settings); err != nil {
 		return fmt.Errorf("failed to generate file: %w", err)
 	}
+	if err := writeFileAtomic(*outputFile, out.Bytes()); err != nil {
+		return fmt.Errorf("failed to write output file: %w", err)
+	}
 	return nil
+}
+
+// writeFileAtomic replaces path with data without ever exposing a truncated or
+// partially written file: the data goes to a temporary file in the same
+// directory, which is renamed over path only once it is complete.
+func writeFileAtomic(path string, data []byte) error {
+	tmp := path + ".tmp" + strconv.Itoa(os.Getpid())
+	f, err := os.OpenFile(tmp, os.O_WRONLY|os.O_CREATE|os.O_EXCL, 0666)
+	if err != nil {
+		return err
+	}
+	_, err = f.Write(data)
+	if cerr := f.Close(); err == nil {
+		err = cerr
+	}
+	if err == nil {
+		err = os.Rename(tmp, path)
+	}
+	if err != nil {
+		os.Remove(tmp)
+	}
+	return err
 }
